@@ -249,6 +249,7 @@ def check(run):
         run.holds("F-CACHE/face-areas", c, where(fa), "face_areas is stored from the first result of the all-default compute_face_areas() call on every path")
     else:
         run.incomplete("F-CACHE/face-areas", c, where(fa), "no store of face_areas found in the getter")
+    _point_equalities(run, P)
     _memo_paths(run, P, f)
     reads_cache = any(str_const(n.slice) == "face_areas" for n in ast.walk(f.node) if isinstance(n, ast.Subscript)) or any(isinstance(n, ast.Attribute) and n.attr == "face_areas" for n in ast.walk(f.node))
     c = "Grid.compute_face_areas:ignores-cache"
@@ -296,3 +297,34 @@ def _memo_paths(run, P, f):
         run.violation("F-CACHE/face-areas", c, where(f, short[0].events[-1] if short[0].events else None),
                       f"{len(short)} returning path(s) hand back stored areas (guarded by {guard_attrs}) without recomputing; the node coordinate setters {stale[:5]} do not reset that memo, "
                       "so after the geometry is edited compute_face_areas/integrate keep using the areas of the previous geometry")
+
+
+def _point_equalities(run, P):
+    """In the area routines a corner is (x, y, z): any test that two corners coincide must compare all three components
+    (on the Cartesian path z distinguishes corners mirrored across the equator; on the lon/lat path z is a dummy, which hides the omission)."""
+    n = 0
+    for f in P.all_functions():
+        if f.module.relpath != AREA or not {"x", "y", "z"} <= set(f.params()):
+            continue
+        for t in ast.walk(f.node):
+            if not isinstance(t, (ast.If, ast.IfExp, ast.While)):
+                continue
+            comps = [c for c in ast.walk(t.test) if isinstance(c, ast.Compare) and len(c.ops) == 1 and isinstance(c.ops[0], (ast.Eq, ast.NotEq))]
+            vars_ = set()
+            for c in comps:
+                for side in (c.left, c.comparators[0]):
+                    if isinstance(side, ast.Subscript) and isinstance(side.value, ast.Name) and side.value.id in ("x", "y", "z"):
+                        vars_.add(side.value.id)
+            calls = [c for c in ast.walk(t.test) if isinstance(c, ast.Call) and (dotted(c.func) or [""])[-1] in ("isclose", "allclose", "array_equal")]
+            for c in calls:
+                for a in c.args[:2]:
+                    if isinstance(a, ast.Subscript) and isinstance(a.value, ast.Name) and a.value.id in ("x", "y", "z"):
+                        vars_.add(a.value.id)
+            if vars_ and len(vars_) >= 2:
+                n += 1
+                c0 = f"{f.key}:corner-equality@{norm(t.test)[:50]}"
+                if vars_ == {"x", "y", "z"}:
+                    run.holds("F-GUARD/corner-equality", c0, where(f, t), "corner coincidence tested on x, y and z")
+                else:
+                    run.violation("F-GUARD/corner-equality", c0, where(f, t), f"two corners are declared identical by comparing {sorted(vars_)} only: corners (x, y, z) and (x, y, -z) coincide for this test, so a face loses a sub-triangle on the Cartesian path")
+    run.stats["corner_equality_tests"] = n
